@@ -138,6 +138,27 @@ def run(ctx):
             want = "ls:%s:%s" % (_m.hexor(n) if make_active else "-", "" if make_active else _m.hexor(n))
             if ("res=" + want) not in lst:
                 viol.append({"op": "listscripts", "what": "listing after the rename differs from the server's state: %s, want %s" % (lst[:80], want)})
+    # directed sessions: the emulated rename on a server that is at its script-count quota (the copy is refused: nothing may change,
+    # the call returns False) and one slot below it (the rename goes through and carries the active mark over)
+    for make_active in (True, False):
+        for room in (0, 1):
+            srv = _rs.RefServer(r, scripts={b"old": b"keep;\r\n", b"other": b"stop;\r\n"}, active=(b"old" if make_active else b"other"), version=False)
+            srv.max_scripts = 2 + room
+            ses = _m.Session()
+            ses.connect(b"", [], "user", "pw", server=srv)
+            out = ses.op("renamescript", "old", "new")
+            evals += 1
+            nontriv += 1
+            held, act = sorted(srv.scripts), srv.active
+            if room == 0:
+                if "res=b0" not in out or held != [b"old", b"other"] or act != (b"old" if make_active else b"other"):
+                    viol.append({"op": "renamescript", "what": "server at its script-count quota (PUTSCRIPT refused with QUOTA/MAXSCRIPTS), %s script: call returned %s, "
+                                 "server now holds %r, active %r — expected False and nothing changed" % ("active" if make_active else "inactive", out.split(" ")[0], held, act)})
+            else:
+                if "res=b1" not in out or held != [b"new", b"other"] or act != (b"new" if make_active else b"other"):
+                    viol.append({"op": "renamescript", "what": "one free slot, %s script: call returned %s, server now holds %r, active %r" % (
+                        "active" if make_active else "inactive", out.split(" ")[0], held, act)})
+
     # directed sessions: a server that lists names as literals; what the client reports must be what the server holds, and
     # every reported name must be usable as it stands
     for names in [["lists\\dev", "a"], ['q"uote', "back\\slash", "x"], ["c:\\dir\\f", "été", "sp ace"], ["tail\\", "{5}", "OK"],
